@@ -141,6 +141,10 @@ type FuncVerifier struct {
 	nEntry int
 	aliases map[types.Object]ast.Expr // locals bound once to &root.path: treated as names for that location
 	regionStart token.Pos
+	entryAxioms []string
+	entryAxiomDecl []int
+	globalsDone map[string]bool
+	regionExit []string
 	regionInit map[types.Object]string
 	siteOcc map[string]int
 	pendingAsserts []string
@@ -588,6 +592,13 @@ func (fv *FuncVerifier) heapClosure(h, H, alloc string) {
 	case strings.HasPrefix(h, "HS_"):
 		elem = "(select (select " + H + " cr) ci)"
 		binders = "((cr Int) (ci Int))"
+	case strings.HasPrefix(h, "HMv_"):
+		ks := fv.eng.sc.mapKeySort[h]
+		if ks == "" {
+			return
+		}
+		elem = "(select (select " + H + " cr) ck)"
+		binders = "((cr Int) (ck " + ks + "))"
 	case strings.HasPrefix(h, "HP_"):
 		elem = "(select " + H + " cr)"
 		binders = "((cr Int))"
@@ -606,7 +617,14 @@ func (fv *FuncVerifier) heapClosure(h, H, alloc string) {
 	if len(cs) > 1 {
 		body = "(and " + strings.Join(cs, " ") + ")"
 	}
-	fv.assumeGlobal("(forall " + binders + " " + body + ")")
+	ax := "(forall " + binders + " " + body + ")"
+	if strings.HasSuffix(H, "!0") {
+		// facts about entry heaps hold in every query of the function (they must survive dry runs)
+		fv.entryAxioms = append(fv.entryAxioms, ax)
+		fv.entryAxiomDecl = append(fv.entryAxiomDecl, len(fv.decls))
+		return
+	}
+	fv.assumeGlobal(ax)
 }
 
 func (fv *FuncVerifier) allocRef(st *State) string {
